@@ -186,6 +186,21 @@ def add_harmless_competitors(rng, chain, coin, kw, count=3):
     return added
 
 
+def add_bulk_headers(rng, chain, kw, n):
+    """n header-only records above the tip (a node in headers-first sync): the index then holds a number of records that no
+    hand-made index has, the delivered chain stays the same."""
+    from .datadir import VALID_TREE
+    tip, tipb = chain[-1]
+    prev = tipb.hash
+    merkle = rbytes(rng, 32)
+    nonce0 = rng.getrandbits(20)
+    for k in range(n):
+        b = Block(4, prev, 1600000000 + k, 0x1D00FFFF, nonce0 + k, [], merkle=merkle)
+        kw["header_only"].append(HeaderOnly(b, tip + 1 + k, VALID_TREE, 0))
+        prev = b.hash
+    return n
+
+
 def layout_chain(rng, coin, nblocks=12, big_every=5, start_height=0):
     """Chain with unique blocks of varied sizes (some larger than the 32 KiB read buffer)."""
     from .chain import TxOut
